@@ -16,10 +16,21 @@ def run(res):
         if rep:
             listed = {f["id"]: f for f in common.known_findings("C08")}
             for region, n in sorted(rep.get("known_region_hits", {}).items()):
+                if region.startswith("("):
+                    continue
                 if region in listed:
                     res.known("%s: %s (%d rustc errors in this run, each inside the region)" % (region, listed[region]["what_fails"], n))
                 else:
                     rep.setdefault("oracle_failures", []).append({"class": "unlisted-region", "region": region})
+        if rep:
+            # the model of derives_of_item *is* the rule set (theorems derive_requires_* / derive_complete):
+            # a type whose real derive list or hand-written impls differ from it on a concrete header is a
+            # concrete failing input for "exactly when the rules allow"
+            for c in rep.get("correspondence_failures", []):
+                c = dict(c); c["class"] = "derive-list-differs-from-rules"
+                rep["oracle_failures"].append(c)
+            rep["correspondence_failures_as_oracle"] = len(rep.get("correspondence_failures", []))
+            rep["correspondence_failures"] = []
         common.conclude(res, lean, regen, rep, out)
         common.proof_coverage(res, lean, "C08")
         if rep:
@@ -31,7 +42,7 @@ def run(res):
                         "Default/PartialEq/Debug impls are executed; distinct = distinct (derive set, impl set, packed, derive options) tuples, all non-trivial",
                 "samples": rep["samples"],
                 "types_compared": rep["types_compared"], "traces_validated_against_impl": rep["types_compared"],
-                "disagreements_checked": len(rep["correspondence_failures"]),
+                "disagreements_checked": rep.get("correspondence_failures_as_oracle", 0),
                 "rustc_runs": rep["rustc_runs"], "behaviour_runs": rep["behaviour_runs"],
                 "derive_histogram": rep["derive_histogram"], "manual_impl_histogram": rep["manual_impl_histogram"],
                 "known_region_hits": rep.get("known_region_hits", {}),
